@@ -43,7 +43,15 @@ func applyMutantFromEnv() (*Mutant, string) {
 		return nil, ""
 	}
 	i, err := strconv.Atoi(v)
-	if err != nil || i < 0 || i >= len(mutants) {
+	if err != nil {
+		i = -1
+		for k, m := range mutants {
+			if strings.Contains(m.Name, v) {
+				i = k
+			}
+		}
+	}
+	if i < 0 || i >= len(mutants) {
 		return nil, "bad mutant index"
 	}
 	m := mutants[i]
@@ -89,6 +97,11 @@ func finishMutant(m *Mutant, r *Run, note string) int {
 			res.Status = "invalid"
 		default:
 			res.Status = "missed"
+		}
+	}
+	if os.Getenv("VERIF_DEBUG") != "" {
+		for _, o := range r.Obs {
+			fmt.Printf("  %v %s | %s | %s\n", o.OK, o.Rule, o.Construct, o.Detail)
 		}
 	}
 	b, _ := json.Marshal(res)
